@@ -36,7 +36,7 @@ def _two(k0, k1, v0, v1):
     for i, (k, v) in enumerate(((k0, v0), (k1, v1))):
         kind = pick(KINDS, k)
         if kind == 'objectType':
-            syn = pick([seq('Integer32'), seq('OCTET STRING ( SIZE ( 0 .. 8 ) )'), seq('Counter64'), seq('INTEGER { a ( 1 ) , b ( 2 ) }'),
+            syn = pick([seq('Integer32'), seq('OCTET STRING ( SIZE ( 0 .. 8 ) )'), seq('Counter64'), seq('INTEGER { oid ( 1 ) , b ( 2 ) }'),
                         seq('TimeTicks')], v)
             acc = pick(['read-only', 'read-write', 'not-accessible', 'accessible-for-notify', 'read-create'], v)
             decls.append(m.object_type(NAMES[i], syn, m.oid('iso', 3, i + 1), access=acc, descr=m.text('d')))
@@ -194,6 +194,66 @@ def replay_identifier(name):
     return True
 
 
+HEAD = 'IMPORTS OBJECT-TYPE, MODULE-IDENTITY, OBJECT-IDENTITY, NOTIFICATION-TYPE, Integer32 FROM SNMPv2-SMI\n' \
+       '  TEXTUAL-CONVENTION FROM SNMPv2-TC\n  MODULE-COMPLIANCE, OBJECT-GROUP, NOTIFICATION-GROUP, AGENT-CAPABILITIES FROM SNMPv2-CONF'
+XDECL = {
+    'valueDeclaration': 'exported OBJECT IDENTIFIER ::= { iso 3 }',
+    'objectIdentity': 'exported OBJECT-IDENTITY STATUS current DESCRIPTION "d" ::= { iso 3 }',
+    'objectType': 'exported OBJECT-TYPE SYNTAX Integer32 MAX-ACCESS read-only STATUS current DESCRIPTION "d" ::= { iso 3 }',
+    'notificationType': 'exported NOTIFICATION-TYPE STATUS current DESCRIPTION "d" ::= { iso 3 }',
+    'moduleIdentity': 'exported MODULE-IDENTITY LAST-UPDATED "200001010000Z" ORGANIZATION "o" CONTACT-INFO "c" DESCRIPTION "d" ::= { iso 3 }',
+    'objectGroup': 'exported OBJECT-GROUP OBJECTS { someObj } STATUS current DESCRIPTION "d" ::= { iso 3 }\n'
+                   'someObj OBJECT-TYPE SYNTAX Integer32 MAX-ACCESS read-only STATUS current DESCRIPTION "d" ::= { iso 4 }',
+    'notificationGroup': 'exported NOTIFICATION-GROUP NOTIFICATIONS { someNotif } STATUS current DESCRIPTION "d" ::= { iso 3 }\n'
+                         'someNotif NOTIFICATION-TYPE STATUS current DESCRIPTION "d" ::= { iso 4 }',
+    'moduleCompliance': 'exported MODULE-COMPLIANCE STATUS current DESCRIPTION "d" MODULE ::= { iso 3 }',
+    'agentCapabilities': 'exported AGENT-CAPABILITIES PRODUCT-RELEASE "r" STATUS current DESCRIPTION "d" ::= { iso 3 }',
+    'typeDeclaration': 'ExType ::= Integer32 (0..5)',
+    'textualConvention': 'ExType ::= TEXTUAL-CONVENTION STATUS current DESCRIPTION "d" SYNTAX Integer32 (0..5)',
+}
+
+
+def load_witness(kind, table=False):
+    """X-MIB declares one symbol of `kind`; Y-MIB imports exactly that symbol and uses it; both are generated with the REAL
+    template, executed against one MibBuilder; True = both load and export what they declare"""
+    from harness import realpipe
+    if table:
+        xbody = ('bTable OBJECT-TYPE SYNTAX SEQUENCE OF BEntry MAX-ACCESS not-accessible STATUS current DESCRIPTION "d" ::= { iso 3 }\n'
+                 'bEntry OBJECT-TYPE SYNTAX BEntry MAX-ACCESS not-accessible STATUS current DESCRIPTION "d" INDEX { b1 } ::= { bTable 1 }\n'
+                 'BEntry ::= SEQUENCE { b1 Integer32 }\n'
+                 'b1 OBJECT-TYPE SYNTAX Integer32 MAX-ACCESS read-only STATUS current DESCRIPTION "d" ::= { bEntry 1 }')
+        name = 'bEntry'
+        ybody = ('aTable OBJECT-TYPE SYNTAX SEQUENCE OF AEntry MAX-ACCESS not-accessible STATUS current DESCRIPTION "d" ::= { iso 5 }\n'
+                 'aEntry OBJECT-TYPE SYNTAX AEntry MAX-ACCESS not-accessible STATUS current DESCRIPTION "d" AUGMENTS { bEntry } ::= { aTable 1 }\n'
+                 'AEntry ::= SEQUENCE { a1 Integer32 }\n'
+                 'a1 OBJECT-TYPE SYNTAX Integer32 MAX-ACCESS read-only STATUS current DESCRIPTION "d" ::= { aEntry 1 }')
+        uses = 'aEntry'
+    else:
+        xbody = XDECL[kind]
+        name = 'ExType' if kind in ('typeDeclaration', 'textualConvention') else 'exported'
+        if name == 'ExType':
+            ybody = 'usesIt OBJECT-TYPE SYNTAX ExType MAX-ACCESS read-only STATUS current DESCRIPTION "d" ::= { iso 9 }'
+        else:
+            ybody = 'usesIt OBJECT IDENTIFIER ::= { exported 1 }'
+        uses = 'usesIt'
+    x = 'X-MIB DEFINITIONS ::= BEGIN\n%s;\n%s\nEND\n' % (HEAD, xbody)
+    y = 'Y-MIB DEFINITIONS ::= BEGIN\n%s\n  %s FROM X-MIB;\n%s\nEND\n' % (HEAD, name, ybody)
+    try:
+        codes = realpipe.generate([x, y], genTexts=False)
+        ns, mb = realpipe.execute_set([('X-MIB', codes['X-MIB']), ('Y-MIB', codes['Y-MIB'])])
+    except Exception:
+        return False
+    return name in mb.mibSymbols.get('X-MIB', {}) and uses in mb.mibSymbols.get('Y-MIB', {})
+
+
+def template_witnesses():
+    out = []
+    for kind in KINDS:
+        out.append((kind, False, load_witness(kind)))
+    out.append(('augmented row', True, load_witness(None, True)))
+    return out
+
+
 def solver_obligations(prop, tier, ctx):
     import json
     import re
@@ -201,6 +261,26 @@ def solver_obligations(prop, tier, ctx):
     from engine import smt
     from pysmi.lexer.smi import SmiV2Lexer
     recs = []
+    # -- template layer: executed load witnesses (concrete, NOT solver-based: the template cannot be executed symbolically) --
+    res = template_witnesses()
+    bad = [r for r in res if not r[2]]
+    rec = dict(cond='C04.template-load-witnesses', fn='templates/pysnmp/mib-definitions.j2 executed by pysnmp', paths=0, queries=0, verdict='EXECUTED',
+               bounds='%d two-module sets (one symbol of each kind imported alone by a second module and used there; an imported row being '
+                      'augmented) generated with the real template and loaded into one MibBuilder; concrete executions, a side condition '
+                      'of the partial claim' % len(res))
+    if not bad:
+        rec.update(status='held', confirmed_paths=len(res))
+    else:
+        kind, table, _ = bad[0]
+        rel = 'replays/C04-load-witness.py'
+        os.makedirs(os.path.join(ctx['verif'], 'replays'), exist_ok=True)
+        with open(os.path.join(ctx['verif'], rel), 'w') as fh:
+            fh.write('import os, sys\nsys.path.insert(0, os.environ.get("VERIF_REPO", "/repo"))\n'
+                     'sys.path.insert(0, os.path.dirname(os.path.dirname(os.path.abspath(__file__))))\n'
+                     'from harness.c04_pysnmp import load_witness\nsys.exit(0 if load_witness(%r, %r) else 1)\n' % (kind, table))
+        rec.update(status='violation', counterexample=dict(kind=kind, failing=[b[0] for b in bad]), replay=rel,
+                   message='a generated module set does not load: a symbol of kind %r imported alone by a second generated module' % (kind,))
+    recs.append(rec)
     S = z3.StringSort()
     any_ = z3.AllChar(z3.ReSort(S))
     try:
